@@ -15,8 +15,7 @@ def ccall(env, cfile, fn, args, floor_hints=()):
     """args: list of numpy arrays (float/object arrays are double*, int32 arrays are int*), python ints (int), python
     floats / S (double), or lists of arrays (double**)"""
     if env.sym:
-        m = bridge.module(cfile)
-        it = Interp(m)
+        it = bridge.new_interp(cfile)
         it.floor_hints = list(floor_hints)
         a2 = []
         for k, a in enumerate(args):
